@@ -106,6 +106,14 @@ def register(d):
     v0 = type(CNAME.capitalize() + "Command", (I.scommands.ActionCommand,),
               {"args_definition": [{"name": "only", "type": ["number"], "required": True}]})
     I.scommands.add_commands(v0)
+    if (len(d["slots"]) + len(d["pos"])) % 2:
+        # the class derives from another registered custom command with another definition (ordinary Python reuse of,
+        # say, its callbacks), and that parent has already been used by a parser: nothing computed for the parent may
+        # be taken for the child
+        parent = type("XbaseCommand", (base,), {"args_definition": [{"name": "n", "type": ["number"], "required": True}]})
+        I.scommands.add_commands(parent)
+        I.sparser.Parser().parse(b"if xbase 5 { stop; }" if d["kind"] == "test" else b"xbase 5;")
+        base = parent
     cls = type(CNAME.capitalize() + "Command", (base,), attrs)
     if len(d["pos"]) % 2:
         I.scommands.add_commands([cls])        # both documented call forms
